@@ -44,6 +44,10 @@ func runC05(r *Run) {
 	if r.NumViolations() == 0 {
 		c05LongBacklog(r)
 	}
+	// the per-call order of envelopes also holds for calls relayed by a proxy (c02c.go)
+	if r.NumViolations() == 0 {
+		c02ViaProxy(r)
+	}
 	// concurrent unary calls with payloads up to 64 KiB and forced completion orders of the worker pool
 	// (the C01 pairing rounds): no caller may be handed bytes of another call's reply
 	if r.Want("pairing") && r.NumViolations() == 0 {
